@@ -160,6 +160,20 @@ def build():
     a(("attr-case-table", "{| Class=\"wikitable\" ID=x\n|- BGCOLOR=red\n| colSpan=2 ROWSPAN=1 | a\n|-\n| b || c\n|}\n"))
     a(("attr-case-div", "<div CLASS=\"noprint\" Style=\"color:red\">x</div><span Id=\"y\" TITLE=t>s</span>\n"))
     a(("attr-case-two-tables", "{|\n| Align=left | a\n|}\n\n{|\n| ROWSPAN=\"2\" | b\n| c\n|-\n| d\n|}\n"))
+    # scroll boxes whose height is given in every unit (and not at all)
+    for nm, h in (("percent", "height:50%"), ("em", "height:30em"), ("pt", "height:200pt"), ("none", ""), ("bare", "height:300"), ("auto", "height:auto")):
+        a(("overflow-height-" + nm, '<div style="overflow:auto; %s">scroll <b>text</b></div>\n\nafter\n' % h))
+    a(("overflow-cell-percent", "{|\n| style=\"overflow:auto;height:80%\" | a\n| b\n|}\n"))
+    # block markup inside a heading line, with and without content
+    a(("heading-html-table-empty-cell", "== x<table><tr><td>a</td><td></td></tr></table> ==\nbody\n"))
+    a(("heading-html-table", "== x<table><tr><td>a</td><td>b</td></tr></table> ==\nbody\n"))
+    a(("heading-html-list-empty-item", "== h <ul><li>a</li><li></li></ul> ==\nbody\n"))
+    a(("heading-empty-div-br", "== h <div></div><br/> t ==\nbody\n"))
+    a(("heading-nested-table-empty", "== x<table><tr><td><table><tr><td></td></tr></table></td></tr></table> ==\nbody\n"))
+    # tables and lists inside a table caption, in tables that get linearised
+    wide = "<table><tr>" + "".join("<td>c%d</td>" % i for i in range(17)) + "</tr></table>"
+    a(("caption-holds-wide-table", ("intro " * 60) + "\n\n<table><caption>cap " + wide + "</caption><tr><td>x</td></tr></table>\n"))
+    a(("mp-upper-caption-list", ("intro " * 60) + '\n\n<table id="mp-upper"><caption><ul><li>a</li><li>b</li></ul></caption><tr><td>x</td><td>y</td></tr></table>\n'))
     return T
 
 
